@@ -8,7 +8,6 @@ import (
 	"context"
 	"fmt"
 	pkgerrors "github.com/pkg/errors"
-	"sync" // nosim
 	"time"
 
 	"github.com/yandex/pandora/core"
@@ -36,6 +35,8 @@ type Ev struct {
 	Pool int
 	// CallSeq (next, left): the sequence stamp when the call started (Seq is taken when it returned)
 	CallSeq uint64
+	// CallT (next, left): the simulated time when the call started (T is taken when it returned)
+	CallT time.Duration
 	// AfterClose (shoot-in): the gun had been closed before this shot
 	AfterClose bool
 	// CtxDone (shoot-in, shoot-out): the context the gun was bound with (GunDeps.Ctx) was already done
@@ -44,7 +45,7 @@ type Ev struct {
 
 // Log is the shared event log of a run.
 type Log struct {
-	mu  sync.Mutex // nosim
+	mu  simrt.HMutex
 	T0  time.Time
 	Evs []Ev
 }
@@ -322,16 +323,16 @@ type RecSchedule struct {
 }
 
 func (s *RecSchedule) Next() (time.Time, bool) {
-	c := simrt.Seq()
+	c, ct := simrt.Seq(), time.Since(s.Log.T0)
 	t, ok := s.Schedule.Next()
-	s.Log.Add(Ev{Kind: "next", Tok: t.Sub(s.Log.T0), OK: ok, Src: s.Name, CallSeq: c})
+	s.Log.Add(Ev{Kind: "next", Tok: t.Sub(s.Log.T0), OK: ok, Src: s.Name, CallSeq: c, CallT: ct})
 	return t, ok
 }
 
 func (s *RecSchedule) Left() int {
-	c := simrt.Seq()
+	c, ct := simrt.Seq(), time.Since(s.Log.T0)
 	n := s.Schedule.Left()
-	s.Log.Add(Ev{Kind: "left", N: n, Src: s.Name, CallSeq: c})
+	s.Log.Add(Ev{Kind: "left", N: n, Src: s.Name, CallSeq: c, CallT: ct})
 	return n
 }
 
